@@ -25,6 +25,8 @@ TUS = {
     "t_div": {"sources": ["t_div.cpp"], "parts": INT_PARTS},
     "t_farith": {"sources": ["t_farith.cpp"], "parts": FLT_PARTS},
     "t_fround": {"sources": ["t_fround.cpp"], "parts": FLT_PARTS, "cfg_flags": exh_quick_flags, "shards": {"quick": {"f32": 6}, "thorough": {"f32": 12, "f64": 2}}},
+    "t_fmanip": {"sources": ["t_fmanip.cpp"], "parts": FLT_PARTS, "shards": {"thorough": {"f32": 5}}},
+    "t_fclass": {"sources": ["t_fclass.cpp"], "parts": FLT_PARTS, "cfg_flags": exh_quick_flags, "shards": {"quick": {"f32": 6}, "thorough": {"f32": 6}}},
     "t_select": {"sources": ["t_select.cpp"], "parts": INT_PARTS + FLT_PARTS},
 }
 
@@ -139,5 +141,24 @@ PROPS = {
                        "integral, infinite or zero (so f(-0.0) must be -0.0), NaN for NaN, and by value otherwise (libm's -0.0 for inputs in (-1,-0) equals AVEL's +0.0). "
                        "The MXCSR/x87 control words are compared before and after every exploration in every harness of C01..C17 (second clause).",
         "assumptions": ["glibc's ceilf/floorf/truncf/roundf/nearbyintf/rintf (inlined as SSE4.1 rounding instructions) are the reference"],
+    },
+    "C12": {
+        "tus": ["t_fmanip"],
+        "configs": int_cfgs,
+        "rule": "unary functions (frexp both outputs, ilogb, logb, frac): F32L u F32H incl. every subnormal power of two (all 2^32 floats in thorough), F64S; "
+                "ldexp/scalbn: F32L x EXP / F64L x EXP with EXP = every int in [-1200,1200], +-2^k, +-2^k+-1, INT_MIN/INT_MAX, a different exponent in every lane; "
+                "fmax/fmin/fdim: F32L^2, F64L^2; KF tuples in every lane against every fill. non-trivial: zero, subnormal, infinite or NaN input or result.",
+        "explanation": "each function on every member of the domain against <cmath> under round-to-nearest; bit for bit except NaN results (any NaN) and, for "
+                       "frac/fmax/fmin/fdim, zero results (either sign); frexp's exponent is not compared for +-inf/NaN inputs (the statement does not define it)",
+        "assumptions": ["glibc <cmath> is the reference"],
+    },
+    "C13": {
+        "tus": ["t_fclass"],
+        "configs": int_cfgs,
+        "rule": "fpclassify/isnan/isinf/isfinite/isnormal/signbit: every one of the 2^32 float patterns for the widest float vector of the float-arm cover configurations "
+                "(every width, every configuration class in thorough), F32L u F32H elsewhere, F64S for double; quiet comparisons: F32L^2 and F64L^2 (both NaN kinds and signs, "
+                "zeros, subnormals, infinities); KF tuples in every lane. non-trivial: NaN, infinite, zero, subnormal or negative operand; equal operands.",
+        "explanation": "classification and quiet comparison functions on every bit pattern / pair against the <cmath> macros",
+        "assumptions": ["glibc <cmath> classification macros are the reference"],
     },
 }
